@@ -24,6 +24,12 @@ func TestVerif(t *testing.T) {
 	switch prop {
 	case "C05":
 		verifC05(t, r, out)
+	case "C06":
+		verifSched(t, r, out, "sch6")
+		verifAdv(t, r, out, "adv6")
+	case "C07":
+		verifSched(t, r, out, "sch7")
+		verifAdv(t, r, out, "adv7")
 	case "C12":
 		verifC12(t, r, out)
 	case "C18":
